@@ -239,6 +239,10 @@ fn single_state_cfgs(max_terms: usize, lalr: bool) -> Vec<ScanCfg> {
     out
 }
 
+pub fn multi_state_cfgs_pub(lalr: bool) -> Vec<ScanCfg> {
+    multi_state_cfgs(lalr)
+}
+
 /// two/three-state configurations exercising enter / push / pop
 fn multi_state_cfgs(lalr: bool) -> Vec<ScanCfg> {
     let mut out = vec![];
@@ -1053,6 +1057,22 @@ fn eval_c17(case: &C17Case, acc: &Acc) -> Vec<Violation> {
                         pl,
                         json!({"decorated": text}),
                     ));
+                }
+                // the same with a trimmed parse tree: comments must still arrive
+                if !want.is_empty() {
+                    if let Ok(ot) = catch(|| bound.parse(&text, &RunOpts { trim: true, ..Default::default() })) {
+                        let got_t: Vec<String> = ot.events.iter().filter_map(|e| if let Event::Comment(t) = e { Some(t.text.clone()) } else { None }).collect();
+                        if ot.ok && got_t != want {
+                            out.push(c17_vio(
+                                &format!("comment_not_delivered_with_trimmed_tree({})", if is_lr { "LR" } else { "LL" }),
+                                format!("{} | {:?} with trim_parse_tree: on_comment received {:?}, the input contains {:?}", case.short, text, got_t, want),
+                                case,
+                                w,
+                                pl,
+                                json!({"decorated": text}),
+                            ));
+                        }
+                    }
                 }
                 // every skipped token is a leaf: the leaves spell the input
                 let mut leaves = vec![];
